@@ -1,5 +1,6 @@
 import Oracle.Common
 import MageModel.Gen.StrconvLemmas
+import MageModel.Parse.Fields
 open Lean MageModel.Gen
 namespace Oracle.Conv
 
@@ -17,6 +18,9 @@ def handle (op : String) (j : Json) : R Json := do
   | "conv.word" =>
     let w ← fldStr j "w"
     pure (obj [("atoi", optJ jint (Strconv.atoi w)), ("bool", optJ jbool (Strconv.parseBool w)), ("dur", optJ jint (Strconv.parseDuration w))])
+  | "conv.fields" =>
+    let c ← fldStr j "c"
+    pure (obj [("fields", Json.arr ((MageModel.Parse.commentFields c).map jstr).toArray)])
   | "conv.durfmt" =>
     let d ← fldSInt j "d"
     let s := Strconv.durString d
